@@ -139,6 +139,27 @@ EXPECTED_PROBES = {
 }
 
 
+_CLIENT = ["cfg_numpy_scalar_client", "cfg_id_keys_renamed", "sel_recent_node"]
+for _p, _extra in {
+    "C01": _CLIENT + ["motif_started", "cfg_seg_not_contiguous", "client_reuses_pixel_arrays", "pt_noop_bg", "pt_noop_empty"],
+    "C02": _CLIENT + ["motif_started", "pt_noop_bg", "pt_noop_empty", "client_reuses_pixel_arrays", "io_rebuild_from_tracks"],
+    "C03": _CLIENT + ["motif_started", "cfg_node_id_zero"],
+    "C04": _CLIENT + ["motif_started", "cfg_node_id_zero", "io_rebuild_from_tracks", "io_rebuild_featuredict"],
+    "C05": _CLIENT + ["motif_started", "cfg_node_id_zero", "an_lineage_supplied_of_track", "an_lineage_supplied_of_any", "io_rebuild_from_tracks"],
+    "C06": _CLIENT + ["cfg_node_id_zero", "io_rebuild_from_tracks", "io_rebuild_featuredict"],
+    "C07": _CLIENT + ["cfg_seg_not_contiguous", "client_reuses_pixel_arrays", "pt_noop_bg", "pt_merged_frame_entries", "pt_entries_split_per_stroke", "motif_started"],
+    "C08": _CLIENT + ["cfg_seg_not_contiguous", "motif_started", "pt_entries_split_per_stroke", "io_restart_with_requested_features"],
+    "C09": _CLIENT + ["motif_started", "io_restart_with_requested_features"],
+    "C10": _CLIENT + ["motif_started"],
+    "C11": _CLIENT + ["f5_warning_refused_UserWarning", "pt_entries_split_per_stroke", "pt_merged_frame_entries", "client_reuses_pixel_arrays", "c11_add_node_bad_value", "c11_add_node_none_pos", "c11_add_node_bad_pixels"],
+    "C14": ["cfg_numpy_scalar_client", "cfg_id_keys_renamed", "cfg_pos_as_ndarray", "cfg_big_sparse_ids", "io_save_into_same_dir", "io_export_replaces_previous", "io_reexport_refused", "io_restart_with_requested_features", "io_rebuild_from_tracks"],
+    "C15": ["cfg_id_keys_renamed", "cfg_pos_as_ndarray", "io_subset_none", "io_csv_colors_ok", "io_csv_names_tif_ok", "io_export_replaces_previous", "io_reexport_refused"],
+    "C16": ["cfg_id_keys_renamed", "cfg_pos_as_ndarray", "io_csv_colors_ok", "io_csv_names_tif_ok", "io_export_replaces_previous", "io_reexport_refused", "io_save_into_same_dir"],
+    "C20": _CLIENT + ["f5_warning_refused_UserWarning", "io_rebuild_from_tracks", "pt_noop_bg", "pt_noop_empty"],
+}.items():
+    EXPECTED_PROBES[_p] = EXPECTED_PROBES[_p] + [x for x in _extra if x not in EXPECTED_PROBES[_p]]
+
+
 def nontrivial_word(w: str) -> bool:
     """C02 rule: contains edit-after-undo followed later by >= 2 consecutive undos."""
     i = w.find("UE")
